@@ -504,7 +504,7 @@ impl<T: 'static + GcManaged> GcManaged for ObjBoundMethod<T> {
     }
 
     fn blacken(&self) {
-        self.receiver.mark();
+        self.receiver.blacken();
         self.method.blacken();
     }
 }
